@@ -186,7 +186,7 @@ def validate(rep, wd, groups, owner, prefix, maxbatch=700):
 def roundtrip_trace(tid, m, bc, codec, hexb, desc, secret=''):
     if tid % 9 == 4:
         drv.hazard(drv.rng(tid, 'hazard', desc))          # unrelated activity in this process; must not matter
-    with drv.Env('rt', tid, desc, every=5):        # every fifth history with the library's debug logging on
+    with drv.Env('rt', tid, desc):        # a third of the histories in another environment (drv.Env)
         e1, b = isoc.do_dumps(m, codec, bc, hexb)
         evs = [e1]
         d = None
